@@ -82,7 +82,14 @@ IsoVerdict(e) ==
   ELSE IF e.allfailed /\ e.out # e.absent THEN "IsolationVsAbsent"
   ELSE "ok"
 
-EndVerdict(e) == IF e.others1 # e.others0 THEN "SomethingElseWritten" ELSE "ok"
+\* "reported and SKIPPED": the run goes on and the call completes - an entry point
+\* that documents per-file failures as logged (anonymize_files, main; the repo's own
+\* test says "should complete okay, because it skips the errored file") must not let
+\* the error escape.  mayraise = TRUE for FileAnonymizer.anonymize_file, whose
+\* contract is to raise.  (Trace-level clause: the model has no notion of raising.)
+EndVerdict(e) == IF e.others1 # e.others0 THEN "SomethingElseWritten"
+                 ELSE IF e.raised /\ ~e.mayraise THEN "CallRaised"
+                 ELSE "ok"
 
 \* ---------------------------------------------------------------------------
 \* Scenarios
@@ -94,7 +101,12 @@ CONSTANTS Dirs,        \* directory ids; DotDir is a dot-directory
           WithEnv,     \* TRUE: pre-existing output / empty sub-directory enumerated too
           WithSingle   \* TRUE: single-file scenarios as well
 
-Faults == {"none", "decode", "outdir"}
+\* "blocked": the output SUB-DIRECTORY of the file cannot be created because its name
+\* (or the name of one of its ancestors below the output root) is taken by a regular
+\* file of a pre-existing output directory.  A directory-level fault: it hits every
+\* file of that directory and of the directories below it (directory 2 lies below 1).
+Faults == {"none", "decode", "outdir", "blocked"}
+Below(d, e) == d = 2 /\ e = 1
 Copy   == {"base", "faulty"}
 
 Hidden(k)  == k[2] = "dot"
@@ -102,20 +114,25 @@ InDot(k)   == k[1] = DotDir
 Visible(k) == ~Hidden(k) /\ ~InDot(k)
 Kinds      == {k \in Dirs \X Names : InDot(k) => k[2] = "a"}
 \* hidden / dot-directory files can be undecodable (binary droppings) but nobody claims their slot
-FaultsOf(k) == IF Visible(k) THEN Faults ELSE {"none", "decode"}
+FaultsOf(k) == IF ~Visible(k) THEN {"none", "decode"}
+               ELSE IF k[1] = 0 THEN {"none", "decode", "outdir"}    \* the output root itself is never blocked
+               ELSE Faults
 RECURSIVE UpTo(_)
 UpTo(n)    == IF n = 0 THEN {{}} ELSE LET P == UpTo(n - 1) IN P \cup {T \cup {k} : T \in P, k \in Kinds}
 Trees      == UpTo(MaxFiles) \ {{}}                  \* every set of 1..MaxFiles kinds
 PreOuts    == IF WithEnv THEN {"absent", "empty", "stale"} ELSE {"absent"}
 ESubs      == IF WithEnv THEN BOOLEAN ELSE {FALSE}
 
-FaultMaps(T) == {g \in [T -> Faults] : \A k \in T : g[k] \in FaultsOf(k)}
+BlockOK(T, g) == \A k, j \in T : (Visible(k) /\ Visible(j) /\ g[k] = "blocked") =>
+                     /\ k[1] = j[1] => g[j] = "blocked"
+                     /\ Below(j[1], k[1]) => g[j] = "blocked"
+FaultMaps(T) == {g \in [T -> Faults] : (\A k \in T : g[k] \in FaultsOf(k)) /\ BlockOK(T, g)}
 \* single-file mode: one visible file in the root; esub = "parent directory of the
 \* named output is missing"; a stale or occupied slot needs the parent to exist
 SingleScenarios ==
   IF ~WithSingle THEN {} ELSE
   {x \in {[mode |-> "single", files |-> {k}, fault |-> (k :> f), pre |-> p, esub |-> s]
-            : k \in {y \in Kinds : y[1] = 0 /\ Visible(y)}, f \in Faults,
+            : k \in {y \in Kinds : y[1] = 0 /\ Visible(y)}, f \in {"none", "decode", "outdir"},
               p \in {"absent", "stale"}, s \in BOOLEAN} :
      x.esub => (x.pre = "absent" /\ \A k \in x.files : x.fault[k] # "outdir")}
 
@@ -132,6 +149,7 @@ FaultS(s, c, k)  == IF c = "base" THEN "none" ELSE s.fault[k]
 InS(s, c, k)     == IF FaultS(s, c, k) = "decode" THEN <<"bad", k>> ELSE <<"in", k>>
 RefS(s, c, k)    == IF FaultS(s, c, k) = "decode" THEN <<"NA">> ELSE <<"ref", k>>
 PreS(s, c, k)    == IF FaultS(s, c, k) = "outdir" THEN <<"DIR">>
+                    ELSE IF FaultS(s, c, k) = "blocked" THEN <<"ABSENT">>   \* nothing can sit below a regular file
                     ELSE IF s.pre = "stale" /\ Visible(k) THEN <<"stale", k>>
                     ELSE <<"ABSENT">>
 Fault(c, k)  == FaultS(scn, c, k)
